@@ -5,7 +5,7 @@
 package node
 
 //@ spec func refw0(id uint64) uint64 = id & 262143
-//@ spec func refw1(id uint64) uint64 = id >> 46
+//@ spec func refw1(id uint64) uint64 = id >> 18
 
 //@ func (n *node) MakeRef
 //@   props C06 C07
